@@ -1,10 +1,14 @@
-HOOK_COMMITS = ["3541ee03"]
+HOOK_COMMITS = ["3541ee03", "5c7bb04c"]
 
 CHECKS = [
  {"property_id": "C18", "level": "model_checking",
   "text": "TLC proves, on every listed order of every well-formed event list (<=5 events over 5 versions + '0', several ranges/entries on smaller bounds), that the transcription of IsAffected (sort, Go binary search, neighbour decision) equals the OSV linear evaluation; every record TLC reaches is then replayed through the real vulns.IsAffected for npm, Maven and PyPI at every query position in two version spellings and compared with the declarative expectation.",
   "note": "Trusted: TLC, deps.dev semver ordering on the rendered version strings, the position->string rendering. Equal-version fixed/introduced pairs are outside the domain.",
   "technique": "TLA+ spec (OSVRange.tla) model-checked by TLC; exhaustive replay of TLC-generated cases into the real code"},
+ {"property_id": "C16", "level": "model_checking",
+  "text": "ReqCache.tla models RequestCache.Get as its critical sections; TLC explores every interleaving of 3-4 goroutines over 1-2 keys with ok/err fetch outcomes and SetMap, checking one-leader-per-key, no-fetch-after-success, cache/return soundness and termination under fairness. Every behaviour of the Gen cfgs is replayed through the real cache with hook-H1 gates (state compared after every step), and ungated 8-goroutine stress traces (sequence numbers taken under the cache mutex) are validated against the spec with all invariants evaluated at every step; thorough tier records the traces under the Go race detector.",
+  "note": "Trusted: TLC, the Go scheduler/race detector, hook H1 placement, goroutine identity via runtime.Stack. Parts (a) patch fan-out and (c) status-ticker race are listed in evidence.not_explored until their modules are bound.",
+  "technique": "TLA+ spec (ReqCache.tla) model-checked by TLC; deterministic schedule replay of TLC behaviours into the real code via gated hooks; TLC trace validation of recorded concurrent executions"},
 ]
 
 _PENDING = "check not built yet in this round (planned, see DESIGN.md section 6); not claimed until its TLA+ spec and conformance harness exist"
